@@ -47,6 +47,10 @@ type c06Case struct {
 
 func (c c06Case) class() string {
 	cls := c.Cause + "@" + c.Phase
+	if c.Cause == "cut-at-byte" {
+		// which connection of which session is cut, and in which direction (a failure signature then names a family of cuts, not all of them)
+		cls += fmt.Sprintf(",%s,ns%d,link%d,%s", c.Transport, c.Namespaces, c.CutLink, c.CutDir)
+	}
 	if c.Cause2 != "" {
 		cls += "+" + c.Cause2
 	}
